@@ -17,16 +17,18 @@ import (
 func init() { Registry["faults"] = Faults }
 
 type faultInput struct {
-	Scenario string     `json:"scenario"`
-	Src      model.Tree `json:"src"`
-	Dst      model.Tree `json:"dst"`
-	Kind     string     `json:"kind"` // none S.send S.recv R.send R.recv S.cancel@send S.cancel@recv R.cancel@send R.cancel@recv walk open read hasher notify
-	K        int        `json:"k"`
-	J        int        `json:"j"`
-	CapS     int        `json:"capS"`
-	CapR     int        `json:"capR"`
-	SlowData int        `json:"slowDataUs"`
-	Quiet    bool       `json:"quiet"`
+	Scenario  string     `json:"scenario"`
+	Src       model.Tree `json:"src"`
+	Dst       model.Tree `json:"dst"`
+	Kind      string     `json:"kind"` // none S.send S.recv R.send R.recv S.cancel@send S.cancel@recv R.cancel@send R.cancel@recv walk open read hasher notify
+	K         int        `json:"k"`
+	J         int        `json:"j"`
+	CapS      int        `json:"capS"`
+	CapR      int        `json:"capR"`
+	SlowData  int        `json:"slowDataUs"`
+	Quiet     bool       `json:"quiet"`
+	CbDelayMS int        `json:"cbDelayMs"`
+	OnlyKinds []string   `json:"onlyKinds,omitempty"`
 }
 
 type opCounts struct {
@@ -67,8 +69,8 @@ func runFault(c *Ctx, caseNo int, in faultInput, srcDir string) ([]vt.Ev, *SyncR
 		}
 	}}
 	o := SyncOpts{Mode: "dirty", Differ: "metadata", CapS2R: in.CapS, CapR2S: in.CapR, SrcFS: ffs, Quiet: in.Quiet,
-		Timeout: 2500 * time.Millisecond,
-		Extra:   vt.Ev{"input": vt.Opaque(in), "origin": in.Scenario, "fault": in.Kind, "k": in.K}}
+		Timeout: 2500 * time.Millisecond, CbDelay: time.Duration(in.CbDelayMS) * time.Millisecond,
+		Extra: vt.Ev{"input": vt.Opaque(in), "origin": in.Scenario, "fault": in.Kind, "k": in.K}}
 	if in.SlowData > 0 {
 		d := time.Duration(in.SlowData) * time.Microsecond
 		o.Gate = func(ep, op string, k int) {
@@ -148,10 +150,17 @@ func faultScenarios(c *Ctx) []faultInput {
 	for k := 0; k < 300; k++ {
 		fan = append(fan, mk(fmt.Sprintf("f%04d", k), 1, int64(100+k)))
 	}
+	// a directory first (its notification is synchronous in the diff loop), then 320 files:
+	// a slow failing callback on the directory lets more than 2x128 STATs pile up
+	dirFirst := model.Tree{{Path: "00d", Type: "dir", Perm: 0755, Mtime: uniqueMtime()}}
+	for k := 0; k < 320; k++ {
+		dirFirst = append(dirFirst, mk(fmt.Sprintf("f%04d", k), 1, int64(700+k)))
+	}
 	out := []faultInput{
 		{Scenario: "small/empty", Src: small, CapS: 1, CapR: 1},
 		{Scenario: "small/dirty", Src: small, Dst: dirty, CapS: 0, CapR: 0},
 		{Scenario: "fanout300/slowdata", Src: fan, CapS: 32, CapR: 64, SlowData: 2000},
+		{Scenario: "dirfirst320/slowcallback", Src: dirFirst, CapS: 64, CapR: 64, CbDelayMS: 400, OnlyKinds: []string{"notify", "hasher"}},
 	}
 	if c.Thorough() {
 		out = append(out,
@@ -222,6 +231,15 @@ func Faults(c *Ctx) error {
 			{"walk", cnt.Walks}, {"open", cnt.Opens}, {"read", cnt.Opens}, {"hasher", cnt.Hasher}, {"notify", cnt.Notify},
 		}
 		for _, kd := range kinds {
+			if len(sc.OnlyKinds) > 0 {
+				keep := false
+				for _, x := range sc.OnlyKinds {
+					keep = keep || x == kd.kind
+				}
+				if !keep {
+					continue
+				}
+			}
 			// operation indexes: all of them for small scenarios, a spread for large ones
 			var ks []int
 			first := 0
@@ -246,7 +264,7 @@ func Faults(c *Ctx) error {
 			} else {
 				seen := map[int]bool{}
 				// beyond 132 outstanding requests (pipeline 128 + 4 workers) and around the end of the STAT stream
-				for _, k := range []int{170, 230, first, 301, last, 150, 200, 320} {
+				for _, k := range []int{first, 170, 230, 301, last, 150, 200, 320} {
 					if len(ks) >= limit {
 						break
 					}
